@@ -95,6 +95,7 @@ class SymBackend(BackendBase):
         self.mode = "P" if sizes is None else "B"
         self.ingredients = {}  # name -> descriptor for model extraction
         self.size_syms = {}
+        self.size_fns = {}  # P mode: 'rows.add.n' -> z3 function giving the s-th length
 
     # -- classes / objects
     def cls(self, path):
@@ -235,6 +236,7 @@ class SymBackend(BackendBase):
                 lists.append(self.idx_list("%s[%d]" % (name, s), ln, upper))
             return lambda s: lists[s] if isinstance(s, int) else _raise(OutOfReach("symbolic subtotal index in B mode"))
         ln = z3.Function("%s.%s" % (name, lengths_name), z3.IntSort(), z3.IntSort())
+        self.size_fns["%s.%s" % (name, lengths_name)] = ln
         f = z3.Function(name, z3.IntSort(), z3.IntSort(), z3.IntSort())
         s_, k, k2 = z3.Int(name + "!s"), z3.Int(name + "!q"), z3.Int(name + "!q2")
         self.c.assume(z3.ForAll([s_], z3.And(ln(s_) >= 0, ln(s_) <= zi(upper))))
@@ -334,6 +336,8 @@ class SymBackend(BackendBase):
     def cells(self, shape):
         """iterate over cells: P -> one skolem cell; B -> all concrete cells (or skolem if big)"""
         shape = tuple(raw(d) for d in shape)
+        if any(isinstance(d, int) and d == 0 for d in shape):
+            return
         if all(isinstance(d, int) for d in shape):
             tot = 1
             for d in shape:
@@ -390,6 +394,33 @@ def _raise(e):
     raise e
 
 
+_native_done = []
+
+
+def activate_native():
+    """make `import cr.cube` resolve to the tree under verification (PVC_REPO_SRC)"""
+    if _native_done:
+        return
+    _native_done.append(1)
+    import os
+    import sys
+
+    src = os.environ.get("PVC_REPO_SRC")
+    if not src or os.path.realpath(src) == "/repo/src":
+        return
+    for k in [k for k in sys.modules if k == "cr" or k.startswith("cr.")]:
+        del sys.modules[k]
+    sys.path.insert(0, src)
+    import importlib
+
+    m = importlib.import_module("cr")
+    p = os.path.join(src, "cr")
+    if hasattr(m, "__path__") and p not in list(m.__path__):
+        m.__path__.insert(0, p)
+    cube = importlib.import_module("cr.cube")
+    assert os.path.realpath(cube.__file__).startswith(os.path.realpath(src)), cube.__file__
+
+
 class ConcreteBackend(BackendBase):
     """mode C: real numpy, installed package, values from a model / generator."""
 
@@ -407,6 +438,7 @@ class ConcreteBackend(BackendBase):
     def cls(self, path):
         import importlib
 
+        activate_native()
         modpart, _, attr = path.partition(":")
         m = importlib.import_module("cr.cube." + modpart)
         obj = m
@@ -426,7 +458,7 @@ class ConcreteBackend(BackendBase):
         return bool(self.values[name])
 
     def real(self, name, nonneg=False, maybe_nan=False):
-        return float(self.values[name])
+        return self.np.float64(self.values[name])
 
     def integer(self, name, lo=None, hi=None):
         return int(self.values[name])
@@ -451,13 +483,15 @@ class ConcreteBackend(BackendBase):
         return types.SimpleNamespace(**attrs)
 
     def rd(self, t, *idx):
-        return float(t[tuple(int(i) for i in idx)])
+        if any(i is None for i in idx):
+            return self.np.float64("nan")  # read through a non-existent list entry (guarded in specs)
+        return self.np.float64(t[tuple(int(i) for i in idx)])
 
     def rd_bool(self, t, *idx):
         return bool(t[tuple(int(i) for i in idx)])
 
     def Sum(self, n, f):
-        return math.fsum(f(k) for k in range(int(n)))
+        return sum((f(k) for k in range(int(n))), self.np.float64(0))
 
     def ite(self, c, a, b):
         return a if c else b
@@ -475,22 +509,22 @@ class ConcreteBackend(BackendBase):
         return not bool(x)
 
     def NaN(self):
-        return float("nan")
+        return self.np.float64("nan")
 
     def sqrt(self, x):
-        return math.sqrt(x) if x >= 0 else float("nan")
+        return self.np.sqrt(self.np.float64(x))
 
     def spec_tensor(self, shape, f):
         shape = tuple(int(d) for d in shape)
         a = self.np.empty(shape, dtype=float)
-        for idx in itertools.product(*[range(d) for d in shape]):
-            try:
+        with self.np.errstate(all="ignore"):
+            for idx in itertools.product(*[range(d) for d in shape]):
                 a[idx] = f(*idx)
-            except ZeroDivisionError:
-                a[idx] = float("nan")
         return a
 
     def idx_at(self, lst, k):
+        if not (0 <= k < len(lst)):
+            return None
         return int(lst[k])
 
     def length(self, x):
@@ -563,3 +597,77 @@ REGISTRY = []
 def register(cls):
     REGISTRY.append(cls())
     return cls
+
+
+class SkipInput(Exception):
+    """random input does not satisfy the contract's precondition"""
+
+
+class RandomConcreteBackend(ConcreteBackend):
+    """mode C with inputs drawn at random (recorded in self.values for replay)."""
+
+    def __init__(self, rnd, sizes):
+        ConcreteBackend.__init__(self, {}, sizes)
+        self.rnd = rnd
+
+    def size(self, name, lo=0):
+        if name not in self.sizes:
+            self.sizes[name] = self.rnd.choice([0, 1, 2, 3])
+        v = int(self.sizes[name])
+        if v < lo:
+            raise SkipInput()
+        return v
+
+    def flag(self, name):
+        self.values[name] = self.rnd.random() < 0.5
+        return self.values[name]
+
+    def real(self, name, nonneg=False, maybe_nan=False):
+        v = float(self.rnd.choice([0, 1, 2, 3, 5, 0.5, 2.25]))
+        if not nonneg and self.rnd.random() < 0.3:
+            v = -v
+        if maybe_nan and self.rnd.random() < 0.15:
+            v = float("nan")
+        self.values[name] = v
+        return v
+
+    def integer(self, name, lo=None, hi=None):
+        lo = 0 if lo is None else int(lo)
+        hi = lo + 4 if hi is None else int(hi)
+        if hi <= lo:
+            raise SkipInput()
+        v = self.rnd.randrange(lo, hi)
+        self.values[name] = v
+        return v
+
+    def tensor(self, name, shape, nonneg=False, maybe_nan=False, integer=False):
+        shape = tuple(int(d) for d in shape)
+        n = 1
+        for d in shape:
+            n *= d
+        vals = []
+        for _ in range(n):
+            v = float(self.rnd.choice([0, 0, 1, 2, 3, 4, 7] if integer else [0, 0, 1, 2, 3, 4, 7, 0.5, 1.25]))
+            if not nonneg and self.rnd.random() < 0.25:
+                v = -v
+            if maybe_nan and self.rnd.random() < 0.12:
+                v = float("nan")
+            vals.append(v)
+        a = self.np.array(vals, dtype=float).reshape(shape)
+        self.values[name] = a.tolist()
+        return a
+
+    def idx_list(self, name, length, upper, strictly_increasing=True):
+        length, upper = int(length), int(upper)
+        if length > upper:
+            raise SkipInput()
+        v = sorted(self.rnd.sample(range(upper), length))
+        self.values[name] = v
+        return self.np.array(v, dtype=int)
+
+    def idx_family(self, name, count, lengths_name, upper):
+        lists = []
+        for s in range(int(count)):
+            ln = self.size("%s.%s[%d]" % (name, lengths_name, s))
+            lists.append(self.idx_list("%s[%d]" % (name, s), ln, upper))
+        return lambda s: lists[s]
